@@ -285,7 +285,7 @@ def parse_perr(s):
 
 class C07(Spec):
     prop = "C07"
-    lean_modules = ["SonicSpec.Props.C07"]
+    lean_modules = ["SonicSpec.Props.C07", "SonicSpec.Props.C10Layout"]
     needs_factx = True
     rule = ("entry points x {random bytes, grammar documents with one or two edits, every prefix, value streams with stray closers, "
             "10^3..10^7-deep nestings closed/unclosed, 64 KiB..1 MiB scalars and wide containers}; encoder on cyclic, 0..10^6-deep, "
